@@ -70,6 +70,13 @@ char *strdup(const char *s){ size_t n = strlen(s); size_t room = __CPROVER_OBJEC
 char *strdup(const char *s){ size_t n = strlen(s); char *p = verif_malloc_small(n + 1); for (size_t i = 0; i <= n; i++) p[i] = s[i]; return p; }
 #endif
 char *strndup(const char *s, size_t m){ size_t n = strnlen(s, m); char *p = verif_malloc_small(n + 1); for (size_t i = 0; i < n; i++) p[i] = s[i]; p[n] = 0; return p; }
+/* further string functions a change to snoopy may plausibly start using (a call without a model returns an arbitrary value in cbmc
+   and turns a concrete run into an intractable symbolic one) */
+size_t strcspn(const char *s, const char *rej){ size_t i = 0; for (; s[i] != 0; i++) { for (size_t j = 0; rej[j] != 0; j++) if (s[i] == rej[j]) return i; } return i; }
+size_t strspn(const char *s, const char *acc){ size_t i = 0; for (; s[i] != 0; i++) { int ok = 0; for (size_t j = 0; acc[j] != 0; j++) if (s[i] == acc[j]) ok = 1; if (!ok) return i; } return i; }
+char *strpbrk(const char *s, const char *acc){ size_t i = strcspn(s, acc); return s[i] ? (char *)s + i : 0; }
+void *memchr(const void *p, int c, size_t n){ const char *s = p; for (size_t i = 0; i < n; i++) if (s[i] == (char)c) return (void *)(s + i); return 0; }
+char *strncat(char *d, const char *s, size_t n){ size_t l = strlen(d), i = 0; for (; i < n && s[i] != 0; i++) d[l + i] = s[i]; d[l + i] = 0; return d; }
 static int verif_isdelim(char c, const char *d){ for (size_t i = 0; d[i] != 0; i++) if (d[i] == c) return 1; return 0; }
 char *strtok_r(char *str, const char *delim, char **save){
   char *p = str ? str : *save;
